@@ -1,5 +1,6 @@
 import BufModel.ImagePaths
 import BufModel.LegacyStrip
+import BufModel.FindExtension
 import Driver.Util
 /-
   Line protocol for C11.
@@ -17,6 +18,12 @@ import Driver.Util
     strip <TAB> byteshex          output: byteshex of stripBufExtensionField
 
     pimg  <TAB> dir(p2i|i2p) ...  see `handlePimg`
+
+    fext <TAB> tree <TAB> queries  findExtension (build_image.go) on one file (BufModel.FindExtension)
+      tree    : space-separated prefix tokens   F nE ext.. nM msg..    msg = M nE ext.. nN msg..
+                ext = extendee,number,id   (extendee / id: indexes of interned full names)
+      queries : space-separated extendee,number
+      output  : per query the id of the extension found, or -
 
     legacy <TAB> file             stripLegacyOptionsFromFile on one descriptor tree (BufModel.LegacyStrip)
       file : space-separated prefix tokens
@@ -240,8 +247,73 @@ def handleLegacy (line : String) : String :=
 
 end Legacy
 
+/-! ### fext: `findExtension` on a tree of declaration scopes -/
+namespace FExt
+open BufModel.FindExtension
+
+def parseExt (s : String) : Option Ext :=
+  match s.splitOn "," with
+  | [m, n, i] => do
+    let m ← m.toNat?
+    let n ← n.toInt?
+    let i ← i.toNat?
+    pure { extendee := m, number := n, id := i }
+  | _ => none
+
+mutual
+partial def parseMsg : List String → Option (Msg × List String)
+  | "M" :: ne :: ts => do
+    let ne ← ne.toNat?
+    let (es, ts) ← Legacy.takeN parseExt ne ts
+    match ts with
+    | nn :: ts => do
+      let nn ← nn.toNat?
+      let (ns, ts) ← parseMsgs nn ts
+      pure (Msg.mk es ns, ts)
+    | _ => none
+  | _ => none
+partial def parseMsgs : Nat → List String → Option (List Msg × List String)
+  | 0, ts => some ([], ts)
+  | n + 1, ts => do
+    let (m, ts) ← parseMsg ts
+    let (ms, ts) ← parseMsgs n ts
+    pure (m :: ms, ts)
+end
+
+def parseFile : List String → Option BufModel.FindExtension.File
+  | "F" :: ne :: ts => do
+    let ne ← ne.toNat?
+    let (es, ts) ← Legacy.takeN parseExt ne ts
+    match ts with
+    | nm :: ts => do
+      let nm ← nm.toNat?
+      let (ms, ts) ← parseMsgs nm ts
+      if ts.isEmpty then pure { exts := es, msgs := ms } else none
+    | _ => none
+  | _ => none
+
+def parseQuery (s : String) : Option (Nat × Int) :=
+  match s.splitOn "," with
+  | [m, n] => do
+    let m ← m.toNat?
+    let n ← n.toInt?
+    pure (m, n)
+  | _ => none
+
+def handle (tree queries : String) : String :=
+  match parseFile ((tree.splitOn " ").filter (· ≠ "")), ((queries.splitOn " ").filter (· ≠ "")).mapM parseQuery with
+  | some f, some qs =>
+    " ".intercalate (qs.map fun (m, n) =>
+      match findExtension f m n with
+      | some e => toString e.id
+      | none => "-")
+  | _, _ => "bad-op"
+
+end FExt
+
 def handle : List String → String
   | ["legacy", file] => Legacy.handleLegacy file
+  | ["fext", tree, queries] => FExt.handle tree queries
   | ["iwop", allow, files, pths, excl] =>
     match parseFiles files, parseStrs pths, parseStrs excl with
     | some img, some ps, some es => showImage (imageWithOnlyPaths img ps es (allow = "1"))
